@@ -42,8 +42,11 @@ RULE = (
     "tier for the 96-bit PDUs), all bursts up to a tier-dependent length with every interior pattern, solid bursts of "
     "every length <= w and seeded sampled interiors for the longer ones (w = 16/8/9 from deg G, 15 for HRNP), generated "
     "in code-word order and mapped to wire positions; for confirmed last blocks additionally every 32-bit message CRC "
-    "of weight 1..2 with the pattern that zeroes it, and every single-bit fault on the directed extreme-check-value PDUs "
-    "of (a).  HRNP patterns that shorten the length field are outside the "
+    "of weight 1..2 with the pattern that zeroes it, every single-bit fault on the directed extreme-check-value PDUs "
+    "of (a), and the mask / data-type confusion family: on one random and two extreme PDUs per masked kind (rate blocks "
+    "also read as the other confirmed block type) every burst <= w whose syndrome is the xor of two distinct standard "
+    "data-type masks of that width (check-field-only pattern, the unique burst per offset solved on the reference, and "
+    "DPF switches compensated in the check field when still inside the guaranteed set).  HRNP patterns that shorten the length field are outside the "
     "guaranteed set and counted under excluded_by_construction.  A case is (PDU fields, flipped wire positions); distinct "
     "by construction; non-trivial = the corruption was detected (indicator False or decode error), "
     "as opposed to falling into bits the PDU does not interpret (parsed fields identical)."
@@ -206,7 +209,8 @@ def parse(pdu, bits: bitarray):
         return L.ShortLinkControl.from_bits(bits)
     if k in RATE_KINDS:
         cls, types = L.RATE[k]
-        return cls.from_bits_typed(bits, types.ConfirmedLastBlock if pdu["last"] else types.Confirmed)
+        # "parse_last" (mask-confusion family): read the block as the *other* confirmed block type of the same rate
+        return cls.from_bits_typed(bits, types.ConfirmedLastBlock if pdu.get("parse_last", pdu["last"]) else types.Confirmed)
     if k == "hrnp":
         return L.HRNP.from_bytes(bits.tobytes())
     raise HarnessError(f"unknown PDU kind {k}")
@@ -725,7 +729,11 @@ def solve_hrnp_checksum(pdu, target):
     number does (0xFFFF never: the ones-complement sum of a non-zero header is never zero)."""
     pdu["pn"] = 0
     s0 = hrnp_sum(pdu)
-    for pn in range(1 << 16):
+    want = (~target) & 0xFFFF  # folded sum; a positive sum s folds to the representative of s mod 65535 in 1..65535
+    first = (want - s0) % 65535
+    for pn in (first, first + 65535):
+        if pn > 0xFFFF:
+            continue
         s = s0 + pn
         while s >> 16:
             s = (s & 0xFFFF) + (s >> 16)
@@ -1136,6 +1144,44 @@ FAULT_PLAN = {
 }
 
 
+def _confusion_masks(kind):
+    if kind.startswith("dh_") or kind == "pi_header":
+        return R.STANDARD_MASKS_16
+    if kind in RATE_KINDS:
+        return R.STANDARD_MASKS_9
+    if kind.startswith("short_lc"):
+        return R.STANDARD_MASKS_8
+    return None
+
+
+def mask_confusion_cases(pdu, n, g, layout, t_all, w, excluded):
+    """Error patterns whose syndrome is exactly a ^ b for two distinct standard masks of this check width (a received
+    word carrying one passes a check that applies the wrong data-type mask): (i) the check-field-only pattern, (iii) every
+    burst <= w with that syndrome (solved on the reference per offset), (ii) for data headers the DPF bits switched to
+    every other value with the check field compensated to the same syndrome - kept only when still inside the guaranteed
+    set (weight <= t or burst <= w), else counted in ``excluded``.  Returns [(class, pdu, wire flips)]."""
+    cases = []
+    syns = R.confusion_syndromes(_confusion_masks(pdu["kind"]))
+    for syn in sorted(syns):
+        for i, pos in enumerate(R.bursts_with_syndrome(g, n, syn)):
+            if len(pos) < 2:
+                continue  # single-bit patterns are enumerated on every PDU anyway (keeps cases distinct)
+            cases.append(("mask_confusion:check_field_only" if i == 0 else "mask_confusion:burst", pdu, sorted(layout[c] for c in pos)))
+        if pdu["kind"].startswith("dh_"):
+            cur = {"dh_confirmed": 0b0011, "dh_unconfirmed": 0b0010, "dh_response": 0b0001, "dh_short_defined": 0b1101, "dh_udt": 0b0000}[pdu["kind"]]
+            for other in range(16):
+                if other == cur:
+                    continue
+                d = [4 + j for j in range(4) if ((cur ^ other) >> (3 - j)) & 1]  # code positions == wire positions
+                comp = syn ^ R.syndrome(d, n, g)  # check-field flip that brings the total syndrome to ``syn``
+                pos = sorted(d + [n - 1 - j for j in range(w) if (comp >> j) & 1])
+                if len(pos) <= t_all or pos[-1] - pos[0] + 1 <= w:
+                    cases.append(("mask_confusion:dpf_switch", pdu, sorted(layout[c] for c in pos)))
+                else:
+                    excluded["mask_confusion_dpf_switch:outside_guaranteed_set"] += 1
+    return cases
+
+
 def _fault_budget(ctx: Ctx, kind):
     """(random PDUs, low-weight-check PDUs, burst length up to which every interior pattern is enumerated, number of sampled
     longer bursts, number of sampled weight-3 patterns or None = all)"""
@@ -1211,11 +1257,27 @@ def make_fault_driver(group):
                     plan_note[f"{kind}:crc32z:{j}"] = {"pdu_class": "low_weight_crc32", "code_bits": n, "enumerated_patterns": 528,
                                                        "note": "528 PDUs (every crc32 of weight 1..2) x the one pattern that zeroes the crc32 field"}
         # the directed extreme-check-value PDUs of rt_pdu, under every single-bit fault
-        for j, (kind, label, target, pdu) in enumerate(extreme_pdus(ctx, kinds, pool)):
+        ext = extreme_pdus(ctx, kinds, pool)
+        for j, (kind, label, target, pdu) in enumerate(ext):
             n = expected_wire_bits(pdu)
             if n is None:
                 n = len(serialise(pdu, build(pdu)))
             items.append((kind, f"extreme_check_value:{label}", pdu, n, 1, 0, f"{kind}:extreme:{j}", 0, 0, 0, False, "weight_1_only", 0, 0))
+        # mask / data-type confusion: per kind one random and two extreme-check PDUs (rate blocks: also read as the other
+        # confirmed block type) x the patterns whose syndrome is the xor of two standard masks
+        for kind in kinds:
+            if _confusion_masks(kind) is None:
+                continue
+            rng = ctx.rng("mask_confusion_pdus", kind)
+            chosen = [gen_pdu(rng, kind, pool)]
+            for lab in ("all_zero", "all_ones"):
+                chosen += [p for k2, l2, tg, p in ext if k2 == kind and l2 == lab][: ctx.pick(1, 3)]
+            if kind in RATE_KINDS:
+                chosen = chosen + [dict(p, parse_last=not p["last"]) for p in chosen]
+            for j, pdu in enumerate(chosen):
+                n = expected_wire_bits(pdu)
+                gp = R.guaranteed(code_params(pdu, n)[0], n)
+                items.append((kind, "mask_confusion", pdu, n, gp["max_weight_all"], gp["burst"], f"{kind}:maskconf:{j}", 0, 0, 0, False, "mask_confusion", 0, 0))
         ctx.tally.extra.setdefault("fault_plan", {}).update(plan_note)
 
         def work(it, t: Tally):
@@ -1232,6 +1294,8 @@ def make_fault_driver(group):
                         cases.append(("crc32_zeroing", dict(pdu, crc32=v), [n - 32 + b for b in bits]))
             elif part == "weight_1_only":
                 cases = [("weight_1", pdu, [layout[i]]) for i in range(n)]
+            elif part == "mask_confusion":
+                cases = mask_confusion_cases(pdu, n, g, layout, t_all, w, t.excluded)
             else:
                 if part == "complete":
                     pats = patterns_complete(n, t_all, w, full_burst, all_w3)[lo:hi]
